@@ -21,6 +21,10 @@ pub enum FOp {
     List(String),
     /// raw root-directory slots (fixed-buffer half of C17)
     RawDir(Vec<Vec<u8>>),
+    /// statistics query
+    Stats,
+    /// FAT32 volumes: reserved upper bits set in free table entries, free count "unknown", remount
+    ForeignTable,
 }
 
 #[derive(Clone, Debug, Serialize, Deserialize)]
@@ -47,6 +51,8 @@ fn render(id: usize, h: &FHist) -> String {
             FOp::Remove(n) => s.push_str(&format!("R {}\n", hexs(n))),
             FOp::Rename(a, b) => s.push_str(&format!("M {} {}\n", hexs(a), hexs(b))),
             FOp::List(n) => s.push_str(&format!("L {}\n", hexs(n))),
+            FOp::Stats => s.push_str("S\n"),
+            FOp::ForeignTable => s.push_str("X\n"),
             FOp::RawDir(slots) => {
                 let mut hx = String::new();
                 for sl in slots.iter().take(32) {
@@ -296,7 +302,25 @@ fn hist_strategy() -> impl Strategy<Value = FHist> {
                     ops.insert(pos + 1 + i, l);
                 }
             }
-            FHist { class, kind: 0, ops }
+            // volume kind: mostly the FAT12 one; FAT16; rarely the two with tables of more than 64 KiB (their images are
+            // tens of megabytes: stale bytes anywhere in them show in the image hash)
+            let sel = names.iter().map(|n| n.len()).sum::<usize>() % 40;
+            let kind: u8 = match sel {
+                0..=27 => 0,
+                28..=37 => 1,
+                38 => 2,
+                _ => 3,
+            };
+            if kind == 3 {
+                // the root directory is a single 512-byte cluster there: no raw regions; instead what a foreign writer may
+                // leave in the table, then the counts every build has to agree on
+                ops.retain(|o| !matches!(o, FOp::RawDir(_)));
+                let pos = ops.len() / 2;
+                ops.insert(pos, FOp::ForeignTable);
+                ops.insert(pos + 1, FOp::Stats);
+            }
+            ops.push(FOp::Stats);
+            FHist { class, kind, ops }
         })
 }
 
@@ -342,7 +366,7 @@ pub fn replay(v: &serde_json::Value) -> Result<Option<String>, String> {
 }
 
 pub fn run(tier: Tier, seed: u64) -> i32 {
-    let rule = "histories of create_file/create_dir/open/remove/rename/list with names of 1..258 characters (dense around 13k and 244..258) from three alphabets (ASCII; non-ASCII without case mappings; non-ASCII with case mappings), lookups by upper/lower-cased variants, plus raw root-directory regions (valid long-name runs with one damaged byte, 19-21 slot runs, garbage long-name slots) - executed by the same driver source compiled against fatfs with {std,alloc,lfn,unicode}, {std,lfn,unicode} and {std,alloc,lfn}; oracle = identical observation trace (results, UTF-16 long names, short-name bytes, sizes, attributes) and identical final image hash: alloc vs fixed buffer on all histories, unicode vs no-unicode on the first two alphabets and on a fourth class: names with case mappings (incl. characters whose upper case is ASCII or several characters: sharp s, ligatures, dotless i, long s) where every call names its entry exactly and no two names are case variants - there creation, aliases, listings and images may not depend on the folding; non-trivial = history with a name of >= 14 units or a raw directory region; distinct by hash of the history";
+    let rule = "histories of create_file/create_dir/open/remove/rename/list with names of 1..258 characters (dense around 13k and 244..258) from three alphabets (ASCII; non-ASCII without case mappings; non-ASCII with case mappings), lookups by upper/lower-cased variants, plus raw root-directory regions (valid long-name runs with one damaged byte, 19-21 slot runs, garbage long-name slots) - executed by the same driver source compiled against fatfs with {std,alloc,lfn,unicode}, {std,lfn,unicode} and {std,alloc,lfn}; on four volume kinds (FAT12; FAT16; FAT16 with a table of more than 64 KiB and FAT32 - formatted over stale bytes; on FAT32 with reserved upper bits planted in free table entries and an unknown free count before a statistics query); oracle = identical observation trace (results, UTF-16 long names, short-name bytes, sizes, attributes) and identical final image hash: alloc vs fixed buffer on all histories, unicode vs no-unicode on the first two alphabets and on a fourth class: names with case mappings (incl. characters whose upper case is ASCII or several characters: sharp s, ligatures, dotless i, long s) where every call names its entry exactly and no two names are case variants - there creation, aliases, listings and images may not depend on the folding; non-trivial = history with a name of >= 14 units or a raw directory region; distinct by hash of the history";
     let mut rep = Report::new("C19", tier, seed, "exploration", rule);
     rep.assume("the three feature sets listed; all with std (the harness device needs it)");
     for v in ["A", "B", "C"] {
